@@ -8,7 +8,9 @@
 //                       every (stored, expected) x 2 desired x spurious? for the compare_exchange forms): one JSON
 //                       line per (type, operation, cv-overload) with the number of mismatches and the first one
 // Every line of the file is one case:   <id> <type> <init> <nops> { <op> <vol> <spur> <mo> <a1> <a2> }*
-//   type  b i8 u8 i16 u16 i32 u32 i64 u64 p4 (int*) p8 (double*) f32 f64 f80 (long double) flag
+//   type  b i8 u8 i16 u16 i32 u32 i64 u64 f32 f64 f80 (long double) flag
+//         pointers: p1 char* p2 short* p4 int* p8 double* p8l long* p12 Node12* p16 long double*,
+//         pointers to pointers: pp4 int** pp1 char** pp12 Node12**
 //   values: decimal (two's complement as written for the type); floats: the bit pattern; pointers: byte offset
 //           into an arena
 //   vol   1 = call the volatile-qualified overload;  spur 1 = the fault layer is told to fail the weak CAS
@@ -60,6 +62,11 @@ void OnCrash(int sig) {
 }
 
 alignas(64) char g_arena[1 << 16];
+
+struct Node12 {  // 12 bytes, alignment 4
+  int a, b, c;
+};
+static_assert(sizeof(Node12) == 12);
 
 struct Op {
   std::string name;
@@ -468,6 +475,14 @@ void Dispatch(const Case& c) {
   else if (t == "u64") RunCase<std::uint64_t>(c);
   else if (t == "p4") RunCase<std::int32_t*>(c);
   else if (t == "p8") RunCase<double*>(c);
+  else if (t == "p1") RunCase<char*>(c);
+  else if (t == "p2") RunCase<short*>(c);
+  else if (t == "p8l") RunCase<long*>(c);
+  else if (t == "p12") RunCase<Node12*>(c);
+  else if (t == "p16") RunCase<long double*>(c);
+  else if (t == "pp4") RunCase<int**>(c);       // pointers to pointers: the step is sizeof(pointer) = 8
+  else if (t == "pp1") RunCase<char**>(c);
+  else if (t == "pp12") RunCase<Node12**>(c);
   else if (t == "f32") RunCase<float>(c);
   else if (t == "f64") RunCase<double>(c);
   else if (t == "f80") RunCase<long double>(c);
